@@ -291,6 +291,13 @@ func genPubStress(g *genCtx) {
 	if !g.quick() {
 		rounds = int(400 * g.scale)
 	}
+	// subscriber churn: Subscribe, publish one marker, receive it, Close — thousands of times, while other goroutines publish
+	churn := 3000
+	if !g.quick() {
+		churn = int(200000 * g.scale)
+	}
+	g.newCase("kind=churn")
+	g.op("churn iters=%d pad=300 pubs=4", churn)
 	for t := 0; t < rounds; t++ {
 		g.newCase("kind=stress")
 		r := g.rng
@@ -301,8 +308,16 @@ func genPubStress(g *genCtx) {
 		// late: subscribers (with a filter) that register while the publishers run; zero: the first `zero` subscribers do not wait (timeout 0)
 		// pad: subscribers that reject everything (a long subscriber list widens every window inside Publish)
 		// selfclose: extra subscribers that nobody receives from, with a short timeout and an OnTimeout callback that closes them
-		g.op("stress pubs=%d subs=%d msgs=%d closers=%d seed=%d pclosers=%d late=%d zero=%d selfclose=%d pad=%d", r.rangeIn(1, 4), r.rangeIn(1, 5), r.rangeIn(10, 120), r.intn(3), r.intn(1<<30), pcl, (t%4)/2*(1+t%3), (t%5)/3, (t%3)/2*(1+t%2), (t%4)/3*300)
+		g.op("stress pubs=%d subs=%d msgs=%d closers=%d seed=%d pclosers=%d late=%d zero=%d selfclose=%d pad=%d", r.rangeIn(1, 4), r.rangeIn(1, 5), r.rangeIn(10, 120)+(t%2)*100, r.intn(3), r.intn(1<<30), pcl, latePar(t), (t%5)/3, (t%3)/2*(1+t%2), (t%2)*300)
 	}
+}
+
+// latePar: how many subscribers register while the publishers run (more of them when the subscriber list is padded)
+func latePar(t int) int {
+	if t%2 == 1 {
+		return 12 + t%5
+	}
+	return (t % 4) / 2 * (1 + t%3)
 }
 
 func execPubStressCase(x *execCtx) {
@@ -315,12 +330,73 @@ func execPubStressCase(x *execCtx) {
 		}
 		toks := strings.Fields(line)
 		f := fields(toks[1:])
+		if toks[0] == "churn" {
+			fmt.Fprintf(real, "%s => %s\n", line, pubChurn(atoi(f["iters"]), atoi(f["pad"]), atoi(f["pubs"])))
+			continue
+		}
 		if toks[0] != "stress" {
 			fmt.Fprintf(real, "%s => bad-op\n", line)
 			continue
 		}
 		fmt.Fprintf(real, "%s => %s\n", line, pubStress(atoi(f["pubs"]), atoi(f["subs"]), atoi(f["msgs"]), atoi(f["closers"]), uint64(atoi(f["seed"])), atoiOr(f["pclosers"], 0), atoiOr(f["late"], 0), atoiOr(f["zero"], 0), atoiOr(f["selfclose"], 0), atoiOr(f["pad"], 0)))
 	}
+}
+
+// pubChurn: a message published after Subscribe has returned reaches the new subscriber, however often subscribers come
+// and go and whoever else is publishing at the time.
+func pubChurn(iters, pad, pubs int) string {
+	p := publisher.NewPublication[int]()
+	for i := 0; i < pad; i++ {
+		p.Subscribe(0, publisher.WithFilter(func(int) bool { return false }))
+	}
+	var stop atomic.Bool
+	var wg sync.WaitGroup
+	for k := 0; k < pubs; k++ {
+		wg.Add(1)
+		go func() {
+			defer wg.Done()
+			for !stop.Load() {
+				p.Publish(-1)
+			}
+		}()
+	}
+	missing, foreign, dup := 0, 0, 0
+	deadline := time.Now().Add(20 * time.Second)
+	for i := 1; i <= iters && time.Now().Before(deadline); i++ {
+		sub := p.Subscribe(4, publisher.WithFilter(func(v int) bool { return v > 0 }), publisher.WithTimeout[int](20*time.Second))
+		p.Publish(i)
+		select {
+		case v, ok := <-sub.Receive():
+			if !ok || v != i {
+				foreign++
+			}
+		case <-time.After(2 * time.Second):
+			missing++
+		}
+		sub.Close()
+		for v := range sub.Receive() { // whatever else was buffered: only this marker could be, and only once
+			if v == i {
+				dup++
+			} else {
+				foreign++
+			}
+		}
+		if missing > 3 {
+			break
+		}
+	}
+	stop.Store(true)
+	wg.Wait()
+	p.Close()
+	left := 0
+	if gs := settle("toolchest/publisher.", func() int64 { return 0 }, 5*time.Second); gs != nil {
+		for _, g := range gs {
+			if g.mentions("Publish.func") {
+				left++
+			}
+		}
+	}
+	return fmt.Sprintf("dup=%d foreign=%d rejected=0 missing=%d left=%d unclosed=0 %s", dup, foreign, missing, left, raceObs())
 }
 
 func atoiOr(s string, d int) int {
@@ -415,7 +491,7 @@ func pubStress(P, S, M, closers int, seed uint64, pclosers, late, zero, selfclos
 	var lateMu sync.Mutex
 	var wgLate sync.WaitGroup // every late Subscribe has returned (so that the final Close reaches it)
 	for li := 0; li < late; li++ {
-		nap := time.Duration(rg.intn(400)) * time.Microsecond
+		nap := time.Duration(rg.intn(400+pad*6)) * time.Microsecond
 		buf := rg.intn(4)
 		many := rg.chance(1, 2)
 		wgR.Add(1)
